@@ -24,7 +24,7 @@ type declJ struct {
 	Digest   string   `json:"digest"` // syntax of the declaration, comments and positions erased
 	Kind     string   `json:"kind"`
 	Import   bool     `json:"import"` // an import declaration
-	Start    int      `json:"start"` // offset of the first byte of the declaration or its doc comment
+	Start    int      `json:"start"`  // offset of the first byte of the declaration or its doc comment
 	End      int      `json:"end"`
 	Doc      []string `json:"doc"`
 	Inside   []string `json:"inside"`
